@@ -168,3 +168,9 @@ Definition tapes_consistent (n : nat) (m : rtm) : bool :=
 
 Definition mntm_checks (n : nat) (m : rtm) : list check := tm_checks m ++ [(31, tapes_consistent n m)].
 Definition mntm_validate (n : nat) (m : rtm) : res unit := first_bad (mntm_checks n m).
+
+(* ------------------------------------------------------------------ the constructor and the validation flag *)
+(* Automaton.__post_init__: validate() runs only when should_validate_automata is set; the definition is
+   stored either way (freezing changes container kinds only, which the records do not distinguish) *)
+Definition ctor {D} (validate : D -> res unit) (should_validate : bool) (m : D) : res D :=
+  if should_validate then bind (validate m) (fun _ => Ok m) else Ok m.
